@@ -198,6 +198,24 @@ class Scenario:
         self.k = int(rng.integers(3, n + 2))
         self.cmx = np.array([[int(rng.integers(1, 30)), int(rng.integers(0, 30))], [int(rng.integers(0, 30)), int(rng.integers(1, 500))]])
 
+    def enlarge(self, mods):
+        """Integral values of magnitude ~1e10 (byte offsets, request counts): products of differences exceed 2^63."""
+        self.large = True
+        self.P = np.column_stack((self.P[:, 0] * 1e9 + 4e10, self.P[:, 1] * 3e9))
+        self.PK = self.P[self.K].copy()
+        E = np.round(self.E)
+        self.E = np.column_stack((E[:, 0] * 1e9 + 4e10, E[:, 1] * 3e9))
+        self.va, self.vb = self.va * 3e9, self.vb * 3e9 + 7
+        self.G, self.tri, self.rects = self.G * 5e9, self.tri * 5e9, self.rects * 5e9
+        with install.quiet():
+            red, rem = mods['rdp'].rdp_fixed(self.P, max(6, self.n // 2))
+        self.reduced, self.removed = np.asarray(red), np.asarray(rem)
+        self.KR = self.KR[self.KR < len(self.reduced) - 1]
+        if len(self.KR) == 0:
+            self.KR = np.array([1])
+
+    large = False
+
     def view(self, layout):
         v = type('V', (), {})()
         v.s = self
@@ -467,7 +485,9 @@ def cases(rng, tier, shard, nshards):
         yield {'kind': 'reach', 'seed': int(rng.integers(0, 2 ** 31))}
     total = META['quick_cases'] if tier == 'quick' else META['thorough_cases']
     for i in range(shard_count(total, shard, nshards)):
-        yield {'kind': 'scenario', 'seed': int(rng.integers(0, 2 ** 31)), 'integral': bool(rng.random() < 0.4)}
+        integral = bool(rng.random() < 0.4)
+        yield {'kind': 'scenario', 'seed': int(rng.integers(0, 2 ** 31)), 'integral': integral,
+               'large': bool(integral and rng.random() < 0.25)}
 
 
 def _defaults_digest(mods):
@@ -510,10 +530,15 @@ def run_entry(ctx, mods, name, fn, scen, layouts):
               first=r1, second=r2)
     if st1 == 'ok' and r1 is not None and (not hasattr(r1, '__len__') or len(r1) > 0):
         ctx.nontriv(name, scen.P, scen.K, scen.k, scen.t)
+    agree = {}
     for lay in layouts:
         stl, rl = call(ctx, name, fn, scen.view(lay))
+        # mechanism classifier: values of magnitude ~1e10, only the int64 representation deviates, the float64 ones agree
+        overflow_class = scen.large and lay == 'i64' and all(agree.values())
+        kname = f'representation:int64-overflow:{short}' if overflow_class else f'representation:{short}:{lay}'
         if st1 != stl or st1 == 'exc':
-            ctx.check(st1 == stl and r1 == rl, 'representation', f'representation:{short}:{lay}',
+            agree[lay] = (st1 == stl and r1 == rl)
+            ctx.check(st1 == stl and r1 == rl, 'representation', kname,
                       f'{name}: C representation -> {st1} {r1 if st1 == "exc" else ""}, {lay} representation -> {stl} {rl if stl == "exc" else ""}',
                       layout=lay)
             continue
@@ -524,8 +549,10 @@ def run_entry(ctx, mods, name, fn, scen, layouts):
             ctx.mx(f'max_raw_ulp_accepted:{lay}', RAW[0])
         if ulp > 0:
             ctx.h('float_diff_between_layouts', f'{short}:{lay}')
-        ctx.check(eq, 'representation', f'representation:{short}:{lay}',
-                  f'{name} returns different results for the {lay} representation of the same values',
+        agree[lay] = eq
+        ctx.check(eq, 'representation', kname,
+                  f'{name} returns different results for the {lay} representation of the same values'
+                  + (' (integral values of magnitude ~1e10: int64 products wrap around)' if overflow_class else ''),
                   c_result=r1, other_result=rl, layout=lay)
 
 
@@ -543,8 +570,10 @@ def run_case(ctx, mods, case):
         run_reach(ctx, mods, rng)
         return
     scen = Scenario(rng, mods, case['integral'])
+    if case.get('large'):
+        scen.enlarge(mods)
     layouts = ['F', 'view'] + (['i64'] if case['integral'] else [])
-    ctx.h('scenario', f"{'integral' if case['integral'] else 'float'}/{scen.family}")
+    ctx.h('scenario', f"{'integral-large' if case.get('large') else ('integral' if case['integral'] else 'float')}/{scen.family}")
     for name, fn in STATE['entries'].items():
         run_entry(ctx, mods, name, fn, scen, layouts)
     ctx.sample({'family': scen.family, 'integral': scen.integral, 'n': scen.n, 'points_head': scen.P[:5], 'knees': scen.K,
